@@ -37,9 +37,9 @@ PROBES = ["behaviour.reply", "behaviour.late", "behaviour.never", "behaviour.dup
 VERSIONS = (4, 7, 8, 13, 14)
 # name -> (priority class, kind)
 CMDS = {
-    "getValue": 999, "readCounters": 999, "nop": 999,
+    "getValue": 999, "readCounters": 999, "nop": 999, "readAndClearCounters": 999,
     "getEui64": 0, "getNodeId": 0, "echo": 0,
-    "setSourceRoute": -1, "sendUnicast": -1,
+    "setSourceRoute": -1, "sendUnicast": -1, "setExtendedTimeout": -1, "sendMulticast": -1, "sendBroadcast": -1,
 }
 NAMES = list(CMDS)
 BEH = ["reply"] * 6 + ["late", "never", "dup", "wrongseq", "cb_before", "cb_after"]
@@ -127,6 +127,26 @@ def run(scenario, params, tape, detail=False):
     def h_setSourceRoute(req, **kw):
         expected[req.idx] = None
         return (St("OK"),)
+
+    def h_setExtendedTimeout(req, **kw):
+        expected[req.idx] = None
+        return (St("OK"),) if V >= 14 else ()
+
+    def h_readAndClearCounters(req):
+        tk = token(); expected[req.idx] = tk
+        return ([tk & 0xFFFF, tk >> 16] + [0] * 39,)
+
+    def h_networkState(req):
+        tk = token(); expected[req.idx] = tk % 5
+        return (tk % 5,)
+
+    def h_sendMulticast(req, **kw):
+        tk = token(); expected[req.idx] = tk & 0xFF
+        return (St("OK"), tk & 0xFF)
+
+    def h_sendBroadcast(req, **kw):
+        tk = token(); expected[req.idx] = tk & 0xFF
+        return (St("OK"), tk & 0xFF)
 
     def h_sendUnicast(req, **kw):
         tk = token(); expected[req.idx] = tk & 0xFF
@@ -255,6 +275,21 @@ def run(scenario, params, tape, detail=False):
             return await ez.echo(data=b"x")
         if n == "setSourceRoute":
             return await ez.setSourceRoute(destination=0x1234, relayList=[])
+        if n == "readAndClearCounters":
+            return await ez.readAndClearCounters()
+        if n == "networkState":
+            return await ez.networkState()
+        if n == "setExtendedTimeout":
+            return await ez.setExtendedTimeout(remoteEui64=t.EUI64.convert("00:11:22:33:44:55:66:77"), extendedTimeout=True)
+        if n in ("sendMulticast", "sendBroadcast"):
+            apsf = t.EmberApsFrame(profileId=260, clusterId=6, sourceEndpoint=1, destinationEndpoint=1, options=t.EmberApsOption.APS_OPTION_NONE, groupId=0x1234, sequence=1)
+            if n == "sendMulticast":
+                if V >= 14:
+                    return await ez.sendMulticast(aps_frame=apsf, hops=0, broadcast_addr=t.BroadcastAddress.RX_ON_WHEN_IDLE, alias=0, sequence=1, message_tag=2, message=b"m")
+                return await ez.sendMulticast(apsFrame=apsf, hops=0, nonmemberRadius=3, messageTag=2, messageContents=b"m")
+            if V >= 14:
+                return await ez.sendBroadcast(alias=0, destination=t.BroadcastAddress.RX_ON_WHEN_IDLE, sequence=1, aps_frame=apsf, radius=0, message_tag=3, message=b"m")
+            return await ez.sendBroadcast(destination=0xFFFD, apsFrame=apsf, radius=0, messageTag=3, messageContents=b"m")
         aps = t.EmberApsFrame(profileId=260, clusterId=6, sourceEndpoint=1, destinationEndpoint=1, options=t.EmberApsOption.APS_OPTION_NONE, groupId=0, sequence=1)
         if V >= 14:
             return await ez.sendUnicast(message_type=t.EmberOutgoingMessageType.OUTGOING_DIRECT, nwk=0x1234, aps_frame=aps, message_tag=1, message=b"m")
@@ -411,7 +446,7 @@ def run(scenario, params, tape, detail=False):
             if tk is None:
                 continue
             k = sum(1 for (n, a) in cbs if n == name and _token_of(name, a) == tk)
-            emitted = dup_emitted.count((name, tk))  # 8/16-bit tokens repeat in long runs
+            emitted = dup_emitted.count((name, tk)) + wrong_emitted.count((name, tk))  # 8/16-bit tokens repeat in long runs; wrong-sequence replies are dispatched too
             if 1 <= k <= emitted:
                 probe("dup_delivered_as_callback")
             elif k > emitted:
@@ -443,8 +478,13 @@ def _token_of(name, vals):
             return int.from_bytes(bytes(vals[0].serialize()), "little")
         if name == "getNodeId":
             return int(vals[0])
-        if name == "sendUnicast":
+        if name in ("sendUnicast", "sendMulticast", "sendBroadcast"):
             return int(vals[1])
+        if name == "readAndClearCounters":
+            v = list(vals[0])
+            return int(v[0]) | (int(v[1]) << 16)
+        if name == "networkState":
+            return int(vals[0])
     except Exception:
         return ("undecodable", repr(vals))
     return None
